@@ -4,6 +4,7 @@ import (
 	"context"
 	"fmt"
 	"reflect"
+	"sync/atomic"
 	"unsafe"
 
 	"github.com/goccy/go-json/internal/verifhook"
@@ -17,18 +18,19 @@ var (
 type FieldQuery struct {
 	Name   string
 	Fields []*FieldQuery
-	hash   string
+	hash   unsafe.Pointer // *string, published atomically: a FieldQuery may be shared by goroutines
 }
 
 func (q *FieldQuery) Hash() string {
 	verifhook.Point(5, unsafe.Pointer(&q.hash), false)
-	if q.hash != "" {
-		return q.hash
+	if h := (*string)(atomic.LoadPointer(&q.hash)); h != nil {
+		return *h
 	}
 	b, _ := Marshal(q)
+	h := string(b)
 	verifhook.Point(6, unsafe.Pointer(&q.hash), true)
-	q.hash = string(b)
-	return q.hash
+	atomic.StorePointer(&q.hash, unsafe.Pointer(&h))
+	return h
 }
 
 func (q *FieldQuery) MarshalJSON() ([]byte, error) {
